@@ -313,8 +313,8 @@ class FlatEphysReader(BaseEphysReader):
             paths = [paths]
         self._paths = [Path(p) for p in paths]
         assert all(p.exists() for p in self._paths)
-        self.name = paths[0].stem
-        self.dir_path = paths[0].parent
+        self.name = self._paths[0].stem
+        self.dir_path = self._paths[0].parent
         self._mmaps = [
             _memmap_flat(path, dtype=dtype, n_channels=n_channels, offset=offset, mode=mode)
             for path in paths]
